@@ -44,6 +44,8 @@ def run(ctx, sess):
     ctx.rule('C09.2', 'scratch bound: for every accepted data type the sample count handed to the block writer with the scratch satisfies ceil(count * width / 8) <= sizeof(scratch)')
     ctx.rule('C09.3', 'no degenerate advance: in the overlap branch no pointer-advance or shift expression that depends on the overlap length is identically zero for a feasible sample width')
     ctx.rule('C09.4', 'non-finite values are skipped at every level: each accumulating statement of the summary reductions is control dependent on an isfinite test, and the reader converts a non-finite summary entry to an empty accumulator')
+    ctx.rule('C09.6', 'single packer: every function that adds entries to the level-0 sample block also honours the pending partial byte (reads shift_amount), i.e. goes through the bit packer')
+    ctx.rule('C09.7', 'level-0 data is left out only on request or when a predicate that examines every byte of the block said it is constant')
     ctx.rule('C09.5', 'scratch subscripts stay inside the scratch array')
     f = P.fn('jls_wr_fsr_data')
     ctx.saw(f)
@@ -56,8 +58,13 @@ def run(ctx, sess):
     # the skip branch: blocks control dependent on sample_id > sample_id_next, i.e. the F edge of (sample_id < sample_id_next)
     inner_calls = [c for c in f.calls('wr_data_inner') if f.path(c.args[1]) is not None and f.path(c.args[1]).last_field() == 'buffer_u64']
     skip_calls = [c for c in inner_calls if any(nd.get('op') == 'ref' and nd.get('name') == 'buf_sz' for nd in walk(c.args[2]))]
+    scratch_fill = bool(skip_calls)
     if not skip_calls:
-        raise AnalysisBroken('skip-branch call wr_data_inner(self, scratch, buf_sz) not found')
+        ctx.note('C09.1/C09.2: no scratch-based gap fill found (wr_data_inner(self, scratch, count)); fill rules on the scratch are vacuous, C09.6 decides the replacement')
+    single_packer(ctx, P)
+    omission_criterion(ctx, P)
+    if not scratch_fill:
+        return
     # ---- C09.1
     dts = accepted_data_types(P)
     psz = P.fn('jls_datatype_parse_size')
@@ -306,3 +313,108 @@ def run(ctx, sess):
                         ok, detail = False, 'index %s not understood' % show(idx)
                     ctx.ob('C09.5', bool(ok), f.name, 'scratch[%s]' % show(idx), se.where(), detail if ok else detail + ': one word past the scratch array')
     ctx.floor('scratch subscripts', n5, 3)
+
+
+def single_packer(ctx, P):
+    n = 0
+    for g in P.fns_in('src/wr_fsr.c'):
+        adds = []
+        for ev in g.stores():
+            lhs, rhs, o = ev.store_parts()
+            l0 = strip_casts(lhs)
+            if l0.get('op') == 'member' and l0.get('field') == 'entry_count' and o in ('+=', 'pre++', 'post++'):
+                p = g.path(l0)
+                base_t = None
+                for nd in walk(l0):
+                    if nd.get('op') in ('ref', 'member') and nd.get('t', '').endswith('jls_fsr_data_s'):
+                        base_t = nd.get('t')
+                if base_t is not None:
+                    adds.append(ev)
+        if not adds:
+            continue
+        n += 1
+        ctx.saw(g)
+        reads_shift = any(nd.get('op') == 'member' and nd.get('field') == 'shift_amount' for b in g.blocks.values()
+                          for e in ([ev.e for ev in b.events if ev.e is not None] + ([b.cond] if b.cond is not None else [])) for nd in walk(e))
+        ctx.ob('C09.6', reads_shift, g.name, 'adds entries to the sample block through the bit packer', adds[0].where(),
+               'honours shift_amount' if reads_shift else
+               'this function appends samples to the level-0 block but ignores the pending partial byte (shift_amount / shift_buffer): sub-byte data before and after is displaced')
+    ctx.floor('functions adding entries to the sample block', n, 1)
+
+
+def full_scan_predicate(P, g):
+    """g(mem, size, ...) examines every element: one loop whose pointer starts at mem, ends at mem + size, advances by one,
+    returns false inside the loop only under a test of the current element, and true after the loop."""
+    lp = loops(g)
+    if len(lp) != 1 or len(g.params) < 2:
+        return False
+    hdr, body = list(lp.items())[0]
+    rets = g.returns()
+    if any(r.e is None or const_of(strip_casts(r.e)) is None for r in rets):
+        return False
+    inside = [r for r in rets if const_of(strip_casts(r.e)) == 0]       # early exits: "not constant"
+    outside = [r for r in rets if const_of(strip_casts(r.e)) != 0]     # after the scan: "constant"
+    if not inside or len(outside) != 1:
+        return False
+    # the early exit is decided by the element
+    for r in inside:
+        okc = False
+        for (bid, label) in control_deps_transitive(g, r.block.id):
+            c = g.blocks[bid].cond
+            if c is not None and bid in body and any(nd.get('op') == 'un' and nd['o'] == '*' for nd in walk(c)):
+                okc = True
+        if not okc:
+            return False
+    # bounds: cursor local from param0, end local from param0 + param1
+    p0, p1 = g.params[0]['name'], g.params[1]['name']
+    cur = end = None
+    for ev in g.events('decl'):
+        if ev.e is None:
+            continue
+        names = set(nd.get('name') for nd in walk(ev.e) if nd.get('op') == 'ref')
+        if names == {p0}:
+            cur = ev.name
+        if cur and names == {cur, p1} and strip_casts(ev.e).get('op') == 'bin' and strip_casts(ev.e)['o'] == '+':
+            end = ev.name
+    if cur is None or end is None:
+        return False
+    bound = False
+    for bid in body:
+        c = strip_casts(g.blocks[bid].cond) if g.blocks[bid].cond else None
+        if c is not None and c.get('op') == 'bin' and c['o'] == '<' and strip_casts(c['k'][0]).get('name') == cur and strip_casts(c['k'][1]).get('name') == end:
+            # leaving the loop on this condition's false edge
+            bound = any(s.id not in body for s, l in g.blocks[bid].succs if l == 'F')
+    if not bound:
+        return False
+    steps = [ev for bid in body for ev in g.blocks[bid].events if ev.k == 'store' and strip_casts(ev.store_parts()[0]).get('name') == cur]
+    return len(steps) == 1 and steps[0].store_parts()[1] is None and '++' in steps[0].store_parts()[2]
+
+
+def omission_criterion(ctx, P):
+    f = P.fn('wr_data', 'src/wr_fsr.c')
+    ctx.saw(f)
+    defs = [ev for ev in f.stores() if strip_casts(ev.store_parts()[0]).get('op') == 'ref' and strip_casts(ev.store_parts()[0]).get('name') == 'omit_data'
+            or (ev.k == 'decl' and ev.name == 'omit_data')]
+    if not defs:
+        raise AnalysisBroken('wr_data: no definition of omit_data')
+    n = 0
+    for d in defs:
+        lhs, rhs, o = d.store_parts()
+        calls = [nd.get('callee') for nd in walk(rhs or {}) if nd.get('op') == 'call']
+        for (bid, label) in control_deps_transitive(f, d.block.id):
+            c = f.blocks[bid].cond
+            calls += [nd.get('callee') for nd in walk(c or {}) if nd.get('op') == 'call']
+        fields = set(nd.get('field') for nd in walk(rhs or {}) if nd.get('op') == 'member')
+        if o == '&=':
+            continue                      # can only clear the flag
+        if const_of(strip_casts(rhs)) == 0 and o == '=':
+            continue
+        n += 1
+        helper_ok = {'sample_size_bits', 'jls_datatype_parse_size'}
+        unverified = [c for c in calls if c not in helper_ok and not (P.functions.get(c) is not None and full_scan_predicate(P, P.functions[c]))]
+        from_request = 'write_omit_data' in fields and not [c for c in calls if c not in helper_ok]
+        from_scan = any(P.functions.get(c) is not None and full_scan_predicate(P, P.functions[c]) for c in calls) and not unverified
+        ctx.ob('C09.7', from_request or from_scan, f.name, 'omission decided by `%s`' % show(d.e)[:50], d.where(),
+               'explicit request' if from_request else ('predicate scanning every byte of the block' if from_scan else
+               'the block is left out on the word of %s, which does not examine every sample: written samples inside such a block are lost and read back as synthesised values' % (unverified or 'an unverified criterion')))
+    ctx.floor('definitions that can enable omission', n, 2)
